@@ -526,7 +526,7 @@ func TestC17_Subcommands(t *testing.T) {
 		}
 		r := proc.Run(proc.Cmd{Path: proc.Wtf(), Args: args, Env: h.Env(), Dir: dir, Stdin: stdin + " ", Timeout: 10 * time.Second, FSize: -1})
 		if r.TimedOut {
-			t.Fatalf("wtf %+q did not finish within 10 s (stdin %+q)", args, stdin)
+			t.Fatalf("wtf %+q did not finish within %v (stdin %+q)", args, proc.MinTimeout, stdin)
 		}
 		if r.Panicked() || r.Signaled || (r.ExitCode != 0 && r.ExitCode != 1) {
 			t.Fatalf("wtf %+q crashed: exit %d signal %q\n%s\n%s", args, r.ExitCode, r.Signal, clip(r.Stdout), clip(r.Stderr))
